@@ -357,7 +357,8 @@ impl FilesParagraph {
         let text = match license {
             License::Name(name) => name.to_string(),
             License::Named(name, text) => format!("{}\n{}", name, text),
-            License::Text(text) => text.to_string(),
+            // no short name: the text starts on the line after the (empty) first line
+            License::Text(text) => format!("\n{}", text),
         };
         self.0.set("License", &text);
     }
